@@ -291,7 +291,7 @@ int MxEndpoint::handle_rc(int rc, unsigned char *pt, uint32_t ptlen) {
         }
         case MATRIXSSL_REQUEST_CLOSE: request_close = true; return rc;
         default:
-            if (rc < 0) { if (!got_error) { got_error = true; first_error = rc; } return rc; }
+            if (rc < 0) { if (!got_error) { got_error = true; first_error = rc; if (!(got_fatal_alert || got_close_notify || request_close)) { first_error_alive = rc; } } return rc; }
             return rc;
         }
     }
@@ -301,12 +301,13 @@ int MxEndpoint::handle_rc(int rc, unsigned char *pt, uint32_t ptlen) {
 int MxEndpoint::feed(const unsigned char *p, size_t n) {
     if (!ssl) { return PS_FAILURE; }
     vsim_set_node(node);
+    if (keep_log) { in_log.insert(in_log.end(), p, p + n); }
     int last = 0;
     size_t off = 0;
     do {
         unsigned char *buf = nullptr;
         int32 room = matrixSslGetReadbuf(ssl, &buf);
-        if (room <= 0 || !buf) { log("GetReadbuf", room); if (!got_error) { got_error = true; first_error = room ? room : PS_FAILURE; } return room ? room : PS_FAILURE; }
+        if (room <= 0 || !buf) { log("GetReadbuf", room); if (!got_error) { got_error = true; first_error = room ? room : PS_FAILURE; if (!(got_fatal_alert || got_close_notify || request_close)) { first_error_alive = room ? room : PS_FAILURE; } } return room ? room : PS_FAILURE; }
         size_t take = n - off < (size_t) room ? n - off : (size_t) room;
         if (cfg.dtls && take < n - off) {
             // a datagram must be handed over whole: ask for a buffer of the right size
@@ -340,15 +341,16 @@ Bytes MxEndpoint::pull(size_t max) {
     vsim_set_node(node);
     unsigned char *buf = nullptr;
     int32 n = cfg.dtls ? matrixDtlsGetOutdata(ssl, &buf) : matrixSslGetOutdata(ssl, &buf);
-    if (n <= 0 || !buf) { if (n < 0) { log("GetOutdata", n); if (!got_error) { got_error = true; first_error = n; } } wants_send = false; return out; }
+    if (n <= 0 || !buf) { if (n < 0) { log("GetOutdata", n); if (!got_error) { got_error = true; first_error = n; if (!(got_fatal_alert || got_close_notify || request_close)) { first_error_alive = n; } } } wants_send = false; return out; }
     size_t take = (size_t) n < max ? (size_t) n : max;
     if (cfg.dtls) { take = (size_t) n; }
     out.assign(buf, buf + take);
+    if (keep_log) { out_log.insert(out_log.end(), out.begin(), out.end()); if (barriers.empty() || barriers.back() != in_log.size()) { barriers.push_back(in_log.size()); } }
     int rc = cfg.dtls ? matrixDtlsSentData(ssl, (uint32) take) : matrixSslSentData(ssl, (uint32) take);
     log("SentData", rc, (uint32_t) take, hash_bytes(out.data(), out.size()));
     if (rc == MATRIXSSL_REQUEST_CLOSE) { request_close = true; }
     else if (rc == MATRIXSSL_HANDSHAKE_COMPLETE) { if (!complete) { complete = true; complete_event = (int) events.size(); } }
-    else if (rc < 0) { if (!got_error) { got_error = true; first_error = rc; } }
+    else if (rc < 0) { if (!got_error) { got_error = true; first_error = rc; if (!(got_fatal_alert || got_close_notify || request_close)) { first_error_alive = rc; } } }
     if (rc != MATRIXSSL_REQUEST_SEND && take == (size_t) n) { wants_send = false; }
     if (on_api) { on_api(*this, "SentData"); }
     return out;
@@ -361,7 +363,7 @@ int MxEndpoint::dtls_timer() {
     unsigned char *buf = nullptr;
     int32 n = matrixDtlsGetOutdata(ssl, &buf);
     log("DtlsTimerGetOutdata", n);
-    if (n < 0) { if (!got_error) { got_error = true; first_error = n; } }
+    if (n < 0) { if (!got_error) { got_error = true; first_error = n; if (!(got_fatal_alert || got_close_notify || request_close)) { first_error_alive = n; } } }
     if (on_api) { on_api(*this, "timer"); }
     return n;
 }
@@ -369,6 +371,7 @@ int MxEndpoint::dtls_timer() {
 int MxEndpoint::app_send(const unsigned char *p, size_t n, bool use_writebuf) {
     if (!ssl) { return PS_FAILURE; }
     vsim_set_node(node);
+    if (keep_log) { actions.push_back({ in_log.size(), 0, Bytes(p, p + n), use_writebuf }); }
     int rc;
     if (use_writebuf || n == 0) {   // len 0: only the writebuf path can express an empty record
         size_t off = 0; rc = 0;
@@ -397,6 +400,7 @@ int MxEndpoint::app_send(const unsigned char *p, size_t n, bool use_writebuf) {
 int MxEndpoint::app_close() {
     if (!ssl) { return PS_FAILURE; }
     vsim_set_node(node);
+    if (keep_log) { actions.push_back({ in_log.size(), 1, Bytes(), false }); }
     int rc = matrixSslEncodeClosureAlert(ssl);
     log("EncodeClosureAlert", rc);
     app_closed = true;
